@@ -225,6 +225,8 @@ func run(c Case) (res *h.Result) {
 		r.argVal[ia] = 7000 + i
 	}
 	forward, redefSub := false, false
+	var oldPrec []string
+	oldOf := ""
 	for _, f := range c.Forms {
 		redef := r.w.Defined(f.C)
 		if redef {
@@ -248,6 +250,15 @@ func run(c Case) (res *h.Result) {
 				}
 			}
 			r.taint(old, f)
+			// an instance made before the redefinition keeps the class it was made from (slip documents that): after
+			// the redefinition typep and class-of must still agree about it, both with the old precedence list
+			if r.w.Complete(f.C) {
+				if o := r.lisp("(make-instance '%s)", r.cn(f.C)); o.Kind == ev.Value {
+					r.scope.Let(slip.Symbol("old-instance"), o.Val)
+					oldPrec = r.w.Precedence(f.C)
+					oldOf = f.C
+				}
+			}
 		}
 		for _, s := range f.Sup {
 			if !r.w.Defined(s) {
@@ -260,6 +271,26 @@ func run(c Case) (res *h.Result) {
 			return r.fail(res, fmt.Sprintf("%s => %s", src, out))
 		}
 		r.w.Define(f)
+		if redef && oldOf == f.C && oldPrec != nil {
+			r.label("old-instance-after-redefinition")
+			for _, other := range r.w.Names() {
+				o := r.lisp("(typep old-instance '%s)", r.cn(other))
+				// the class object of `other` itself may have been replaced by this redefinition (other = the
+				// redefined class): membership is judged by name through the precedence list of the instance's class
+				n := r.lisp("(if (member '%s (class-precedence (class-of old-instance))) t nil)", r.cn(other))
+				if o.Kind != ev.Value || n.Kind != ev.Value {
+					return r.fail(res, fmt.Sprintf("instance of %s made before %s: (typep old '%s) => %s, precedence of its class => %s", oldOf, describeForm(f), other, o, n))
+				}
+				if other != f.C && (sx.Text(o.Val) != "nil") != (sx.Text(n.Val) != "nil") {
+					return r.fail(res, fmt.Sprintf("instance of %s made before %s: (typep old '%s) => %s but (member '%s (class-precedence (class-of old))) => %s; before the redefinition the precedence was %v",
+						oldOf, describeForm(f), other, sx.Text(o.Val), other, sx.Text(n.Val), oldPrec))
+				}
+				if other != f.C && (sx.Text(o.Val) != "nil") != in(oldPrec, other) {
+					return r.fail(res, fmt.Sprintf("instance of %s made before %s: (typep old '%s) => %s, its class had the precedence %v when it was made", oldOf, describeForm(f), other, sx.Text(o.Val), oldPrec))
+				}
+			}
+			oldPrec, oldOf = nil, ""
+		}
 		// every class whose direct and indirect superclasses are all defined has its final precedence list now
 		for _, k := range r.w.Names() {
 			if r.w.Complete(k) {
@@ -1241,7 +1272,7 @@ func TestC12(t *testing.T) {
 		"slot added, slot removed, initform toggled) x {canonical, reversed} order x {queried before the redefinition or not}.")
 	h.Assume("internal/refclos encodes the precedence rule of the property statement (direct superclasses in written order, then theirs), not the CLOS topological sort")
 	h.Assume("a writer is called as (writer object value), the argument order slip's suite pins; initforms are integer literals; slots have instance allocation; no :default-initargs, no :type")
-	h.Assume("instances made before a redefinition are not examined afterwards (slip documents that they keep the old class)")
+	h.Assume("of an instance made before a redefinition only this is examined afterwards: typep and the precedence list of its class-of still agree and are the ones from before (slip documents that such instances keep the old class)")
 
 	h.RunProp(t, permGrid, 0)
 	h.RunProp(t, redefGrid, 0)
